@@ -13,12 +13,23 @@
   * `C16_rewritten_declaration_is_reference`: the rewritten function does what the reference semantics does,
     declarations included (they are in the core fragment) — for every capture set: all, some or none of the
     variables instrumented;
+  * `C16_marker_nowhere`: over whole runs — for every function of the core fragment (declarations included),
+    every capture set, every host that never produces the marker (`HostGood`), every handler that answers good
+    values, "nothing" (the marker) or a good exception (`HndGood`), every input: however the activation ends, no
+    variable, no value yielded, nothing pending holds the marker, and the value returned / the exception raised
+    is not the marker.  `C16_rewritten_never_returns_marker` carries it to the REWRITTEN function through the
+    refinement theorem.  `C16_generated_host` and `C16_generated_handler` discharge the assumptions for the host
+    and the handler (recording, possibly overriding) of the generated programs, and
+    `C16_generated_never_marker` is the statement with no hypothesis about hosts left: for every function of
+    the fragment, capture set, integer arguments, override, condition script and driver script.  (Proofs/Inv.lean is a generic invariant theorem for the
+    interpreter; Proofs/InvMarker.lean its instance.)
   * `C16_undefined_name_is_nameerror`, `C16_unused_undefined_is_silent`: a name that is not bound when it is
     read raises the (Python) name error at that point; a global that is not set and never read costs
     nothing: the prologue of the rewritten function skips it (`C16_missing_global_skipped`).
   * `C16_example_*`: kernel-evaluated runs of `def f(a): x: int; return x` — supplied, and not supplied.
 -/
 import PteraModel.Props.C01
+import PteraModel.Proofs.InvMarker
 namespace Ptera.Props.C16
 open Ptera.Py Ptera.Sem
 
@@ -98,6 +109,109 @@ theorem C16_missing_global_skipped (c : Ctx W HS) (lib : LibSpec c) (x : String)
     execS c.envI c.fuel (fetchExternal c.cfg x) = done .normal := by
   simp only [fetchExternal, hoff, Bool.false_eq_true, if_false, execS, eval_inGlobals c lib x, hg,
     Option.isSome_none, stepM_pure, execB_nil]
+
+/-- the marker is nowhere after an activation of the reference semantics -/
+theorem C16_marker_nowhere (host : Host W HS) (Good : Val → Prop) (WInv : W → Prop) (hg : HostGood host Good WInv)
+    (hh : HndGood host Good) (cfg : Cfg) (f : FunDef) (fuel : Nat) (hf : coreF f = true) (st0 : St W HS)
+    (h0 : MarkerFree Good WInv st0) :
+    MarkerFree Good WInv (runRef (ctxOf host cfg f fuel).envR fuel f st0).2
+    ∧ CtlQ Good (runRef (ctxOf host cfg f fuel).envR fuel f st0).1 :=
+  marker_nowhere (ctxOf host cfg f fuel).envR Good WInv hg hh fuel f hf st0 h0
+
+/-- … hence the rewritten function never returns, raises or yields the marker -/
+theorem C16_rewritten_never_returns_marker (host : Host W HS) (hs : HostSpec host) (Good : Val → Prop)
+    (WInv : W → Prop) (hg : HostGood host Good WInv) (hh : HndGood host Good) (cfg : Cfg) (f : FunDef) (fuel : Nat)
+    (hf : coreF f = true) (st0 : St W HS) (h0 : MarkerFree Good WInv st0)
+    (hext : ∀ x ∈ (collect f).external, st0.loc x = none) :
+    CtlQ Good (runInstr (ctxOf host cfg f fuel).envI fuel (instrument cfg f) st0).1
+    ∧ ∀ v ∈ (runInstr (ctxOf host cfg f fuel).envI fuel (instrument cfg f) st0).2.out, Good v := by
+  obtain ⟨e1, o1⟩ := instrument_refines host cfg f fuel hf (libSpec_of_host host hs cfg f fuel hf) st0 hext
+  obtain ⟨m1, m2⟩ := C16_marker_nowhere host Good WInv hg hh cfg f fuel hf st0 h0
+  rw [e1, o1.out]
+  exact ⟨m2, m1.2.2.2.1⟩
+
+/-- the handler of the generated programs (recording, possibly overriding one variable) answers good values -/
+theorem C16_generated_handler : HndGood PyLite.host PyLite.Good where
+  ans := fun i hs hv => by
+    show ResQ PyLite.Good _ (PyLite.hnd i hs).1
+    unfold PyLite.hnd
+    simp only
+    split
+    · split
+      · split
+        · exact Or.inr rfl
+        · exact Or.inr rfl
+      · exact hv
+    · exact hv
+  pne := fun _ => rfl
+
+/-- the host of the generated programs never produces the marker -/
+theorem C16_generated_host : HostGood PyLite.host PyLite.Good PyLite.WInv where
+  notMarker := PyLite.hostGood.notMarker
+  int := PyLite.hostGood.int
+  str := PyLite.hostGood.str
+  noneV := PyLite.hostGood.noneV
+  bool := PyLite.hostGood.bool
+  const := PyLite.hostGood.const
+  tuple := PyLite.hostGood.tuple
+  list := PyLite.hostGood.list
+  glob := PyLite.hostGood.glob
+  call := PyLite.hostGood.call
+  binop := PyLite.hostGood.binop
+  getattr := PyLite.hostGood.getattr
+  getitem := PyLite.hostGood.getitem
+  setattr := PyLite.hostGood.setattr
+  setitem := PyLite.hostGood.setitem
+  iter := PyLite.hostGood.iter
+  truthy := PyLite.hostGood.truthy
+  enter := PyLite.hostGood.enter
+  exit := PyLite.hostGood.exit
+  opaqueE := PyLite.hostGood.opaqueE
+  bindStmt := PyLite.hostGood.bindStmt
+  nameError := PyLite.hostGood.nameError
+  unpackError := PyLite.hostGood.unpackError
+  genExit := PyLite.hostGood.genExit
+  noActiveExc := PyLite.hostGood.noActiveExc
+
+/-- no hypothesis about hosts left: a rewritten function of the fragment, run by the host of the generated
+    programs under any capture set and any override, never returns, raises or yields the marker -/
+theorem C16_generated_never_marker (cfg : Cfg) (f : FunDef) (fuel : Nat) (hf : coreF f = true)
+    (args : List Int) (hlen : f.params.length ≤ args.length) (script : List Bool) (hs0 : PyLite.HState)
+    (inp : List GenCmd) (hinp : ∀ cmd ∈ inp, GoodCmd PyLite.Good cmd) :
+    let st0 : St PyLite.World PyLite.HState :=
+      { loc := initLoc (f.params.map (·.name)) (args.map Val.int), w := { script := script }, hs := hs0,
+        inp := inp, out := [], cur := [] }
+    CtlQ PyLite.Good (runInstr (ctxOf PyLite.host cfg f fuel).envI fuel (instrument cfg f) st0).1
+    ∧ ∀ v ∈ (runInstr (ctxOf PyLite.host cfg f fuel).envI fuel (instrument cfg f) st0).2.out, PyLite.Good v := by
+  intro st0
+  have hf' := hf
+  simp only [coreF, Bool.and_eq_true, List.all_eq_true] at hf'
+  obtain ⟨⟨⟨⟨⟨_, _⟩, _⟩, _⟩, _⟩, hparam⟩ := hf'
+  refine C16_rewritten_never_returns_marker PyLite.host PyLite.hostSpec PyLite.Good PyLite.WInv C16_generated_host
+    C16_generated_handler cfg f fuel hf st0 ⟨?_, hinp, by intro e he; simp [st0] at he, by intro e he; simp [st0] at he,
+      ⟨rfl, rfl, by intro p hp; simp [st0] at hp⟩⟩ ?_
+  · intro x v hv
+    by_cases hm : x ∈ f.params.map (·.name)
+    · obtain ⟨u, hu, hi⟩ := initLoc_some x (f.params.map (·.name)) (args.map Val.int) hm (by simpa using hlen)
+      simp only [st0] at hv
+      rw [hi] at hv
+      injection hv with hv
+      subst hv
+      simp only [List.mem_map] at hu
+      obtain ⟨n, _, rfl⟩ := hu
+      rfl
+    · simp only [st0] at hv
+      rw [initLoc_none x _ _ hm] at hv
+      simp at hv
+  · intro x hx
+    apply initLoc_none
+    intro hm
+    simp only [List.mem_map] at hm
+    obtain ⟨p, hp, rfl⟩ := hm
+    have ha := hparam p hp
+    simp only [Collected.external, List.mem_filter, Bool.and_eq_true, Bool.not_eq_true'] at hx
+    rw [ha] at hx
+    exact absurd hx.2.1 (by decide)
 
 def sample : FunDef :=
   { name := "f", params := [{ name := "a", ann := none }], defaults := [], returns := none, doc := none,
